@@ -91,6 +91,36 @@ Proof.
   inversion Hr; subst. exact G.
 Qed.
 
+(* the shadow-stack file is a whole number of 8-byte slots *)
+Theorem gen_main_ss_len c : hoare (fun _ => True) (gen_main c) (fun img _ => zlen (im_ss img) mod 8 = 0).
+Proof.
+  unfold gen_main.
+  destruct (c_jit_start c <? c_int_start c); [apply hoare_fail|].
+  destruct (c_nb_methods c =? 0); [apply hoare_fail|].
+  eapply hoare_bind; [apply hoare_top|]. intros tramps.
+  eapply hoare_bind; [apply hoare_top|]. intro.
+  eapply hoare_bind; [apply hoare_top|]. intro.
+  eapply hoare_bind; [apply hoare_top|]. intros ints.
+  intros s _. cbv beta zeta.
+  unfold mbind at 1. destruct (lift nop_ s) as [[nop s1]|e]; [|exact I].
+  unfold mbind at 1.
+  destruct (generate_data (c_data_strategy c) (c_data_size c) s1) as [[data s2]|e]; [|exact I].
+  cbn. unfold zlen.
+  assert (H : forall x, Z.of_nat (List.length (zeros (Z.to_nat (align x 8)))) mod 8 = 0).
+  { intros x. rewrite zeros_len. unfold align. destruct (Z_le_gt_dec 0 (x / 8 * 8)).
+    - rewrite Z2Nat.id by assumption. apply Z.mod_mul. lia.
+    - replace (Z.to_nat (x / 8 * 8)) with O by lia. reflexivity. }
+  destruct (c_variant c); try apply H; reflexivity.
+Qed.
+
+Lemma successful_ss_len c script img : successful c script img -> zlen (im_ss img) mod 8 = 0.
+Proof.
+  intros [Hc Hr]. unfold run_gen in Hr.
+  pose proof (gen_main_ss_len c (mk_gs script [] [] []) I) as G.
+  destruct (gen_main c (mk_gs script [] [] [])) as [[im s]|e]; [|discriminate].
+  inversion Hr; subst. exact G.
+Qed.
+
 (* ------------------------------------------------ code_at over concatenations *)
 Lemma code_at_app m A xs ys : code_at m A (xs ++ ys) -> code_at m A xs /\ code_at m (A + 4 * zlen xs) ys.
 Proof.
@@ -223,7 +253,9 @@ Hypothesis Hplain : plain c.
 Hypothesis Hdr6 : uses_tramp (c_variant c) = true -> c_data_reg c <> 6.
 Variable L : layout.
 Variable s0 : mstate.
-Hypothesis HI : Init c img (Ntot c img) L s0.
+Variable bound : Z.                                   (* the stack bound of the variant *)
+Hypothesis HI : Init c img bound L s0.
+Hypothesis Hbound : bound = Ntot c img.
 Hypothesis Hat : code_lo L = int_start_al c.         (* loaded at the generation address *)
 Hypothesis Hsmall : code_hi L - code_lo L < 2147483648 - 2048.
 Hypothesis Hpics : pics_encodable img.
@@ -285,7 +317,7 @@ Lemma flat_placed : placed c img L.
 Proof.
   destruct (i_disjoint _ _ _ _ _ HI) as (D1 & D2 & D3 & D4 & D5 & D6). unfold disjoint in *.
   destruct (i_data _ _ _ _ _ HI) as (Hdr & Hdal & Hdpos & Hdhi & Hd64).
-  destruct (i_sp _ _ _ _ _ HI) as (Hsp & Hsal & Hbound & Hslo & Hs64).
+  destruct (i_sp _ _ _ _ _ HI) as (Hsp & Hsal & Hbnd & Hslo & Hs64).
   destruct (i_code_al _ _ _ _ _ HI) as [Hcal Hcpos].
   constructor.
   - constructor; [exact Hcpos|exact D2|exact D1|]. destruct D6; [right|left]; assumption.
@@ -354,10 +386,10 @@ Theorem plain_image_from_files :
     mem_frame c L s0 s' (stk_hi L - Ntot c img) (stk_hi L) /\ dom s' = 0 /\ cfi s' = [].
 Proof.
   intros Hsaved.
-  destruct (i_sp _ _ _ _ _ HI) as (Hsp & Hsal & Hbound & Hslo & Hs64).
+  destruct (i_sp _ _ _ _ _ HI) as (Hsp & Hsal & Hbnd & Hslo & Hs64).
   destruct (i_ra _ _ _ _ _ HI) as (Hra & Hhal & Hhr & _).
   destruct (i_data _ _ _ _ _ HI) as (Hdr & _).
-  destruct (i_dom _ _ _ _ _ HI) as [Hdom Hcfi].
+  destruct (i_dom _ _ _ _ _ HI) as [Hdom Hcfi]. rewrite Hbound in Hbnd.
   destruct (plain_image_returns c script img Hsucc Hplain Hdr6 L flat_placed flat_placed2 s0) as (s' & eh & E1 & E2 & R & P & Rg & M & D & Cf).
   - rewrite Hsp. exact Hsal.
   - rewrite Hsp. lia.
